@@ -52,6 +52,27 @@ fn pool_value(rng: &mut Rng, ty: &str, extreme: bool) -> Sv {
             };
             Sv::I(*rng.pick(p), 64)
         }
+        "float64" if extreme && rng.chance(1, 3) => Sv::F(*rng.pick(&[
+            // the ends of the integer types as doubles, and their neighbours (2^63 is `i64::MAX as f64`: a bound computed in
+            // floating point accepts it)
+            32767.0,
+            32767.9,
+            32768.0,
+            -32768.0,
+            -32768.9,
+            -32769.0,
+            2147483647.0,
+            2147483647.5,
+            2147483648.0,
+            -2147483648.0,
+            -2147483648.5,
+            -2147483649.0,
+            9223372036854774784.0,
+            9223372036854775808.0,
+            -9223372036854775808.0,
+            -9223372036854777856.0,
+            1e19,
+        ])),
         "float64" => Sv::F(*rng.pick(&[0.0, -0.0, 1.5, -2.25, 1e300, -1e300, 0.1, 3.0, 1e-300])),
         "decimal" => Sv::D(*rng.pick(&[
             Decimal::new(0, 0),
@@ -554,6 +575,10 @@ fn run_cast_case(rng: &mut Rng, from: &str, to: &str) -> Outcome {
         .map(|v| match v {
             None => Exp::Null,
             Some(Sv::I(x, _)) => int_dv(*x, w).map(Exp::Val).unwrap_or(Exp::Error("out of range")),
+            // a number with a fraction is truncated towards zero (the kernel's documented conversion); what is left must fit
+            Some(Sv::F(x)) if x.is_finite() && x.abs() < 1e38 => int_dv(x.trunc() as i128, w).map(Exp::Val).unwrap_or(Exp::Error("out of range")),
+            Some(Sv::F(_)) => Exp::Error("out of range"),
+            Some(Sv::D(d)) => int_dv(d.trunc().mantissa(), w).map(Exp::Val).unwrap_or(Exp::Error("out of range")),
             _ => Exp::Null,
         })
         .collect();
@@ -628,7 +653,7 @@ pub fn ops_main(args: &[String]) -> i32 {
                 record(o, format!("case({ty})"), &mut violations, &mut rows, &mut combos);
             }
             2 => {
-                let from = *rng.pick(&["int16", "int32", "int64"]);
+                let from = *rng.pick(&["int16", "int32", "int64", "float64", "decimal"]);
                 let to = *rng.pick(&["int16", "int32", "int64"]);
                 let o = run_cast_case(&mut rng, from, to);
                 record(o, format!("cast({from}->{to})"), &mut violations, &mut rows, &mut combos);
